@@ -105,7 +105,9 @@ def on_extent(p, r, exc, acc):
 
 
 # ------------------------------------------------------------------ (b) composition of the pipeline
-CONCRETE_FILTERS = ["n", "h", "trim", "entity", "str", "unicode", "decode.utf8", "ff", "gg(1)", "ns.ff(aa, bb)", "gg((-2) ** 2)"]
+CONCRETE_FILTERS = ["n", "h", "trim", "entity", "str", "unicode", "decode.utf8", "ff", "gg(1)", "ns.ff(aa, bb)", "gg((-2) ** 2)", "gg(u)"]
+# ways of writing the same filter list (the list is Python: blanks, a line break after a comma and a comment are no part of it)
+SPELLINGS = ["plain", "newline-after-comma", "comment-after-last", "leading-newline"]
 DEFAULTS = [None, [], ["str"], ["ff"], ["ff", "h"], ("ff",)]          # None = not configured -> ['str']
 PAGE = [None, [], ["h"], ["n"], ["gg(1)", "n"], ["ff", "trim"]]
 TABLE = {"x": "filters.xml_escape", "h": "filters.html_escape", "u": "filters.url_escape", "trim": "filters.trim",
@@ -210,10 +212,14 @@ def on_compose(p, r, exc, acc):
             acc.vcs_unknown += 1
     # concrete replay through a real Template with tagging, non-commuting filters
     if r["is_expr"]:
-        real = realproc.call("pipeline_render", cfg(m))
-        acc.replayed += 1
-        if real[0] != real[1]:
-            acc.candidate(kind="pipeline-render", input=cfg(m), detail="rendered %r, documented composition gives %r" % (real[0], real[1]))
+        for sp in (SPELLINGS if r["local"] else SPELLINGS[:1]):
+            c = dict(cfg(m), spelling=sp)
+            real = realproc.call("pipeline_render", c)
+            acc.replayed += 1
+            acc.vcs += 1
+            if real[0] != real[1]:
+                acc.candidate(kind="pipeline-render" + ("" if sp == "plain" else "-" + sp), input=c,
+                              detail="rendered %r, documented composition gives %r" % (real[0], real[1]))
     elif r["local"] and not any(is_n(p, f) for f in r["local"]):
         # the same list as filter= of a def / block / <%text>, and as buffer_filters: no D, no P
         c = cfg(m)
@@ -279,7 +285,8 @@ def run(check, tier):
         "(comment at depth 0, unterminated string, newline in a single-quoted string, mismatched brackets) are not asserted",
         "(b) create_filter_callable is driven directly with solver-chosen configurations: each local filter is a symbolic one-letter name "
         "or one of %r; default_filters from %r; page expression_filter from %r; is_expression symbolic" % (CONCRETE_FILTERS, DEFAULTS, PAGE),
-        "Python parsing of the filter list (ArgumentList) happens only in the concrete replay through a real Template")
+        "Python parsing of the filter list (ArgumentList) happens only in the concrete replay through a real Template, once per way of "
+        "writing the list (%s); gg(u) takes a context variable named like a flag as its argument" % ", ".join(SPELLINGS))
     check.not_claimed("nesting deeper than the length bound allows", "Python-level meaning of filter arguments (C19)",
                       "filter= on defs/blocks/<%text> and buffer_filters beyond the replayed configurations")
     Ln = {"quick": 2, "thorough": 4}[tier]
